@@ -108,8 +108,12 @@ def call_result(parse, rule: str, text: str, k: int) -> dict:
         return {"enc": "exc " + type(e).__name__}
 
 
-def _sfp(e, Expression):
-    """structural fingerprint of an expression tree; the lazy caches are not part of it"""
+def _sfp(e, Expression, path=()):
+    """structural fingerprint of an expression tree; the lazy caches are not part of it.  An attribute that leads back to a node
+    on the way down (a tree that has become a graph, e.g. an identifier holding the rule it names) is recorded as such."""
+    if id(e) in path or len(path) > 400:
+        return ("back-reference", type(e).__name__, getattr(e, "name", None))
+    path = (*path, id(e))
     attrs = []
     for cls in type(e).__mro__:
         for s in cls.__dict__.get("__slots__", ()):
@@ -117,9 +121,9 @@ def _sfp(e, Expression):
                 continue
             v = getattr(e, s, None)
             if isinstance(v, Expression):
-                attrs.append((s, _sfp(v, Expression)))
+                attrs.append((s, _sfp(v, Expression, path)))
             elif isinstance(v, (list, tuple)):
-                attrs.append((s, tuple(_sfp(x, Expression) if isinstance(x, Expression) else repr(x) for x in v)))
+                attrs.append((s, tuple(_sfp(x, Expression, path) if isinstance(x, Expression) else repr(x) for x in v)))
             else:
                 attrs.append((s, repr(v)))
     return (type(e).__name__, tuple(attrs))
